@@ -139,6 +139,9 @@ def plan(tier, seed):
         (corner("real", prefix=A.GL, retarget=100, fixed_rt=200, name="real-fixed-longer-than-interval"), rt, 3),
         (corner("unit8", prefix=A.GL, name="unit8-fall-tail"), A.fall_tail(rise=60), 4 if tier == "quick" else 3),
         (corner("awk", prefix=A.GL, qubits=3, qid_alias={"q0": 2, "q1": 0, "q2": 1}, name="awk-int-ids-out-of-order"), rt, 3),
+        # a maximum duration per instruction smaller than the waits the channel needs (retarget interval, fall time, phase jump)
+        (corner("real", prefix=A.GL, retarget=220, fixed_rt=0, max_dur=100, name="real-max-duration-below-waits"), rt, 3),
+        (corner("unit", prefix=A.GL, retarget=220, fixed_rt=30, pjt=150, max_dur=100, name="unit-max-duration-below-waits"), rt, 3),
         (corner("awk", prefix=[("declare", "g", "rydberg_global")], name="awk-eom"), A.eom_phase(), 4),
         (corner("real", prefix=[("declare", "g", "rydberg_global")], name="real-eom", eom=dict(mod_bandwidth=20)), A.eom_phase(), 4),
         (corner("unit8", prefix=[("declare", "g", "rydberg_global")], name="eom-slower-than-channel", bw=30, eom=dict(mod_bandwidth=8)), A.eom_phase(), 4),
